@@ -172,6 +172,14 @@ class ClientAuthenticator:
                     b'ERROR ' + str(e).encode('unicode-escape'))
 
     def _auth_ERROR(self, line):
+        if self.negotiatingUnixFD:
+            # the server accepted us (OK) but does not support passing
+            # file descriptors: carry on without them
+            self.negotiatingUnixFD = False
+            self.unixFDSupport = False
+            self.sendAuthMessage(b'BEGIN')
+            self.authenticated = True
+            return
         log.msg(
             'Authentication mechanism failed: '
             + line.decode("ascii", "replace")
